@@ -76,6 +76,16 @@ def scenarios(tier, rng):
                                  [{"ops": [{"op": "new"}, {"op": "solve", "k": 4}, {"op": "wait"}, {"op": "list", "dir": "@A"},
                                            restore_op(full), {"op": "solve", "k": 4}, {"op": "wait"}, {"op": "list", "dir": "@A"},
                                            restore_op(full), {"op": "solve", "k": 1}, {"op": "wait"}, {"op": "list", "dir": "@A"}]}]))
+    # problem instance + a configuration object whose problem field describes another problem: the saved
+    # configuration must describe the problem that was actually solved
+    pspec, full = P["forest"]
+    other = dict(pspec, p=0.3, r1=5.0)
+    for kind in ("VI", "PI"):
+        out.append(base_scenario(f"{kind}-forest-instance-plus-stale-config", kind, "forest", pspec, True, 1, 2, False,
+                                 [{"ops": [{"op": "new", "config_with_other_problem": other}, {"op": "solve", "k": 3}, {"op": "wait"},
+                                           {"op": "list", "dir": "@A"}]},
+                                  {"ops": [{"op": "list", "dir": "@A"}, restore_op(True), {"op": "solve", "k": BIG},
+                                           {"op": "wait"}, {"op": "list", "dir": "@A"}]}]))
     # error paths
     pspec, full = P["tabular"]
     out.append(base_scenario("VI-tabular-restore-without-config", "VI", "tabular", pspec, False, 1, 2, False,
@@ -127,4 +137,5 @@ def run(tier):
                                  for e in tr["ev"] if e["e"].startswith("restore")]})
     rep.assumptions = ["bitwise reproducibility across processes on this platform", "small parameterisations of the shipped problems"]
     rep.extra["machinery_retries"] = list(ckptlib.RETRIES)
+    rep.extra["scenarios_skipped_reference_did_not_converge"] = list(ckptlib.SKIPPED)
     return rep.finish()
